@@ -128,3 +128,60 @@ fn create_bad_request(status: &Status) -> Response<hyper::Body> {
 
     response
 }
+
+#[cfg(datacake_verif)]
+/// Dispatches a request to the in-process server registered for `dst`.
+pub(crate) async fn verif_dispatch(
+    dst: SocketAddr,
+    req: Request<hyper::Body>,
+) -> Result<Response<hyper::Body>, crate::net::Error> {
+    use crate::verif::NetVerdict;
+
+    let verdict = crate::verif::verdict(dst, req.uri().path());
+    crate::verif::yield_once().await;
+
+    let refused =
+        |kind| crate::net::Error::Io(io::Error::new(kind, "verif: injected fault"));
+    if verdict == NetVerdict::DropRequest {
+        return Err(refused(io::ErrorKind::ConnectionRefused));
+    }
+
+    let state = crate::verif::lookup(dst)
+        .ok_or_else(|| refused(io::ErrorKind::ConnectionRefused))?;
+    let caller = SocketAddr::from(([127, 0, 0, 1], 1));
+    let resp = match handle_connection(req, state, caller).await {
+        Ok(resp) => resp,
+        Err(never) => match never {},
+    };
+
+    if verdict == NetVerdict::DropReply {
+        return Err(refused(io::ErrorKind::ConnectionReset));
+    }
+
+    Ok(resp)
+}
+
+#[cfg(datacake_verif)]
+/// Hands raw bytes to the handler registered for `uri_path` at `dst`.
+pub(crate) async fn verif_dispatch_raw(
+    dst: SocketAddr,
+    uri_path: &str,
+    body: Vec<u8>,
+) -> Result<(u16, Vec<u8>), String> {
+    let state = crate::verif::lookup(dst).ok_or("no server registered")?;
+    let req = Request::builder()
+        .method(http::Method::POST)
+        .uri(format!("http://{dst}{uri_path}"))
+        .body(hyper::Body::from(body))
+        .map_err(|e| e.to_string())?;
+    let caller = SocketAddr::from(([127, 0, 0, 1], 1));
+    let resp = match handle_connection(req, state, caller).await {
+        Ok(resp) => resp,
+        Err(never) => match never {},
+    };
+    let (head, body) = resp.into_parts();
+    let bytes = hyper::body::to_bytes(body)
+        .await
+        .map_err(|e| e.to_string())?;
+    Ok((head.status.as_u16(), bytes.to_vec()))
+}
